@@ -54,6 +54,18 @@ def work_events(events):
     return collections.Counter((e[0], e[1]) for e in events if e[0] in WORK)
 
 
+def mk_transform(env):
+    """A `transform_physical` that adds one more call to the physical plan (it must be part of the dry-run result)."""
+    def marker():
+        env.event("call", "tp")
+        return "tp"
+
+    def transform(plan, out):
+        plan.call(marker)
+        return plan, out
+    return transform
+
+
 def sync(dst, src, env_dst, env_src):
     for i, s in src.stores.items():
         dst.stores[i].value, dst.stores[i].mtime = s.value, s.mtime
@@ -67,7 +79,8 @@ def run_history(spec, hseed, steps, driver):
     A, B = pc.build_phys(spec, envA), pc.build_phys(spec, envB)
     viol, dis = [], []
     st = {"dry_runs": 0, "pairs": 0, "pairs_ok": 0, "pairs_failing": 0, "nontrivial": 0, "work_events": 0,
-          "mtime_queries": 0, "no_output": 0, "registered_output": 0, "structured_output": 0, "model_lines": 0}
+          "mtime_queries": 0, "no_output": 0, "registered_output": 0, "structured_output": 0, "model_lines": 0,
+          "with_transform_physical": 0}
     pending = []
     log = []
     random_state(rng, A, envA)
@@ -82,7 +95,9 @@ def run_history(spec, hseed, steps, driver):
         workers = rng.choice([1, 2, 3])
         sched = rng.choice(["default", "random"])
         seed = rng.randrange(1 << 30)
-        desc = {"op": "pair", "output": outspec, "fresh": F, "workers": workers, "scheduler": sched, "seed": seed}
+        use_tp = rng.random() < 0.3
+        desc = {"op": "pair", "output": outspec, "fresh": F, "workers": workers, "scheduler": sched, "seed": seed,
+                "transform_physical": use_tp}
         log.append(desc)
         stale = set(ce.real_stale(A, envA, F))
         desc["stale"] = sorted(stale)
@@ -92,7 +107,7 @@ def run_history(spec, hseed, steps, driver):
         envA.count = 0
         outA = pc.mk_output(A, outspec)
         P, po = uberjob.run(A.plan, registry=A.reg, output=outA, dry_run=True, fresh_time=ce.as_dt(F), progress=None,
-                            max_workers=workers)
+                            max_workers=workers, transform_physical=mk_transform(envA) if use_tp else None)
         st["dry_runs"] += 1
         ev = list(envA.rec.events)
         other = [e for e in ev if e[0] != "mtime"]
@@ -129,7 +144,9 @@ def run_history(spec, hseed, steps, driver):
             bad("pruning the returned plan w.r.t. a gather of all its nodes changed it: "
                 f"{len(nodes)} nodes / {len(e1)} edges before, {len(n2) - 1} / {len(e2)} after", desc)
             break
-        pending.append((line, rg, P2, sink, desc))
+        if not use_tp:
+            pending.append((line, rg, P2, sink, desc))
+        st["with_transform_physical"] += use_tp
         # ---------------- (b) execute the returned plan by itself on A, the real run on B
         envA.rec, envB.rec = plans.Rec(), plans.Rec()
         envA.count = envB.count = 0
@@ -138,7 +155,8 @@ def run_history(spec, hseed, steps, driver):
                                                      scheduler=sched, max_errors=None), seed, mode="prim")
         outB = pc.mk_output(B, outspec)
         rB = coop.run_controlled(lambda: uberjob.run(B.plan, registry=B.reg, output=outB, fresh_time=ce.as_dt(F),
-                                                     progress=None, max_workers=workers, scheduler=sched, max_errors=None),
+                                                     progress=None, max_workers=workers, scheduler=sched, max_errors=None,
+                                                     transform_physical=mk_transform(envB) if use_tp else None),
                                  seed + 1, mode="prim")
         st["pairs"] += 1
         if rA.deadlock or rA.hang or rB.deadlock or rB.hang:
@@ -261,7 +279,7 @@ def explore_c14(ctx, n_hist, steps):
                    "predecessor, Plan/Registry/stores untouched; (c) P re-pruned w.r.t. the all-nodes gather == P + gather == Lean "
                    "model (driver `phys plus`); (b) run(P, output=all nodes) on A vs the real run on clone B (cooperative scheduler, "
                    "1-3 workers, max_errors=None): same multiset of call/read/write events, same store contents, same success, "
-                   "same value at the output; then a source update / deletion / scramble on both clones")
+                   "same value at the output; 30% of the pairs with a transform_physical that adds a call; then a source update / deletion / scramble on both clones")
     cov["samples"] = samples
     return {"violations": viol, "disagreements": dis, "coverage": cov}
 
